@@ -562,6 +562,17 @@ def rule_O1(ctx):
     ctx.ob("O1", op, "orphans = performance directory entries of type PERFORMANCE whose index no volume references", ok, "", inst="orphan-set")
     ok = "volume_entries.append(new_volume)" in t and "lambda this: orphan_ptrs[this._index]" in t
     ctx.ob("O1", op, "the orphans are exported through a pseudo-volume", ok, "", inst="pseudo-volume")
+    # the scan covers the whole performance directory: an orphan may sit in any of its slots (the directory need not be compact)
+    from .util import path_call_keys as _pko
+    off_ = ctx.const(RO + "data_types.py", "PERFORMANCE_DIRECTORY_AREA_OFFSET", "O1")
+    mx_ = ctx.const(RO + "data_types.py", "MAX_NUM_PERFORMANCE", "O1")
+    want_scan = f"(Pointer({off_},SafeListConstruct({mx_},DirectoryEntryParser)))._parsereport(stream,context,path)"
+    pks = _pko(ctx, op, "O1", limit=4000)
+    scans = [[k_ for k_ in ks_ if "SafeListConstruct(" in k_ and k_.endswith("._parsereport(stream,context,path)") and "DirectoryEntryParser" in k_] for ks_ in pks]
+    ok = bool(pks) and all(sc_ and sc_[0] == want_scan for sc_ in scans)
+    bad_ = next((sc_[0] for sc_ in scans if sc_ and sc_[0] != want_scan), "no directory scan")
+    ctx.ob("O1", op, "the orphan scan reads every slot of the performance directory (MAX_NUM_PERFORMANCE entries at its fixed offset)", ok,
+           "" if ok else f"scan is `{bad_[:160]}`", inst="orphan-scan-extent")
     # per-performance collection
     sf = ctx.fn(RO + "sample_file.py", "SampleFileListAdapter._decode", "O1")
     # decided on the iteration paths of the inner loop: an entry is added exactly when its index has not been seen, the index is
